@@ -864,4 +864,64 @@ theorem sparse_old_counterexample :
     have : validatePath validateNtfs [46, 46, 47, 111, 47, 112] = false := by decide
     simp [this]
 
+/-! ## 11. `update_working_tree` over changes of EVERY kind -/
+
+/-- every kind the write loop writes reaches `validate_path` first (both sets are read from the source) -/
+theorem written_kinds_validated : ∀ k : ChangeKind, writtenKind k = true → validatedKind k = true := by
+  intro k; cases k <;> decide
+
+theorem uwtWriteChanges_eq (isEmpty : FS → PPath → Bool) (v : Bytes → Bool) (root : PPath) :
+    ∀ (cs : List Change) (st : St), uwtWriteChanges isEmpty v root cs st =
+      uwtPhaseAllG uwtFreshCache gitlinkDirTestFollows isEmpty v root
+        ((cs.filter (fun c => writtenKind c.1)).map (·.2.2)) st := by
+  intro cs
+  induction cs with
+  | nil => intro st; rfl
+  | cons c cs ih =>
+    obtain ⟨k, old, e⟩ := c
+    intro st
+    simp only [uwtWriteChanges]
+    by_cases hw : writtenKind k = true
+    · have hv := written_kinds_validated k hw
+      simp only [hw, hv, if_true, List.filter_cons, List.map_cons, uwtPhaseAllG]
+      congr 1
+      funext s
+      exact ih s
+    · have hw' : writtenKind k = false := by simpa using hw
+      simp only [hw', Bool.false_eq_true, if_false, List.filter_cons]
+      exact ih st
+
+/-- **`uwt_confined_kinds`**: `update_working_tree` on ANY list of tree changes — add, modify, copy, rename, delete
+and UNCHANGED (what `reset --hard` and friends pass with `want_unchanged=True`), any old paths, any new entries —
+from every file system without a symlink named `.git`: every mutating call is confined.  It rests on
+`written_kinds_validated`: the set of kinds for which the write loop reaches `validate_path` ⊇ the set of kinds it
+writes, both extracted from the source; validating only a subset (e.g. in a pre-pass that skips UNCHANGED) makes
+that lemma, hence this theorem, fail to compile. -/
+theorem uwt_confined_kinds (fold : List Nat → List Nat) (hf : FoldAsciiOk fold) (v : Validator) (root : PPath)
+    (isEmpty : FS → PPath → Bool) (changes : List Change) (fs : FS) (h0 : NoDotGitLink fs) :
+    ∀ m ∈ (updateWorkingTreeK isEmpty (v.run fold) root changes { fs := fs, log := [], safe := [] }).1.log,
+      Confined root m.target := by
+  intro m hm
+  have := uwt_confined fold hf v root isEmpty ((changes.filter (fun c => deletedKind c.1)).map (·.2.1))
+    ((changes.filter (fun c => writtenKind c.1)).map (·.2.2)) fs h0 m
+  apply this
+  unfold updateWorkingTreeK at hm
+  unfold updateWorkingTree
+  have e : (uwtWriteChanges isEmpty (v.run fold) root changes) =
+      (uwtPhaseAllG uwtFreshCache gitlinkDirTestFollows isEmpty (v.run fold) root
+        ((changes.filter (fun c => writtenKind c.1)).map (·.2.2))) := by
+    funext s; exact uwtWriteChanges_eq isEmpty (v.run fold) root changes s
+  rw [e] at hm
+  exact hm
+
+/-- Regression witness for a write loop that does not validate UNCHANGED entries: the index already lists
+`../o/p` (copied in by a mixed reset) and the target tree is the same, so the change arrives as unchanged and the
+file is absent: with the trivial validator the entry is written to `o/p`, outside; validated, it is refused. -/
+theorem unchanged_unvalidated_counterexample :
+    (uwtEntryG true false (fun _ _ => true) (fun _ => true) [[119]] ⟨[46, 46, 47, 111, 47, 112], 0o100644, [7]⟩
+        { fs := exFs, log := [], safe := [] }).1.log = [.write [[111], [112]], .chmod [[111], [112]] 0o644] ∧
+    (uwtEntryG true false (fun _ _ => true) validateNtfs [[119]] ⟨[46, 46, 47, 111, 47, 112], 0o100644, [7]⟩
+        { fs := exFs, log := [], safe := [] }).2 = some .invalidPath := by
+  refine ⟨by decide, by decide⟩
+
 end Dulwich.Props.C17
